@@ -60,6 +60,7 @@ type c11Msg struct {
 	Unprot  []*c11Hdr // jws: one per signature (nil: none); jwe: [0] = shared unprotected header
 	Rcpt    []*c11Hdr // jwe with KW=A128KW: one per recipient (nil: Encrypt(kw, nil))
 	KW      string    // jwe: dir | A128KW
+	Dup     bool      // a Header Parameter name deliberately occurs in two positions of one message
 }
 
 func c11GenMsg(r *vf.Rand, p *c11Pool, isJWE bool) c11Msg {
@@ -103,6 +104,17 @@ func c11GenMsg(r *vf.Rand, p *c11Pool, isJWE bool) c11Msg {
 		if n == 1 && r.Intn(3) == 0 {
 			m.Ser = "compact"
 		}
+		m.Dup = r.Intn(6) == 0
+		for i := 0; i < n; i++ {
+			if m.Unprot[i] == nil {
+				continue
+			}
+			if m.Dup {
+				m.Prot[i].Kid, m.Unprot[i].Kid = "kid-protected", "kid-unprotected"
+			} else {
+				m.Unprot[i].strip(m.Prot[i].names(false, false))
+			}
+		}
 		return m
 	}
 	s := hdr(1 + r.Intn(3))
@@ -128,6 +140,31 @@ func c11GenMsg(r *vf.Rand, p *c11Pool, isJWE bool) c11Msg {
 		}
 		if r.Intn(8) == 0 {
 			m.Ser = "compact" // must fail: recipient headers cannot be carried
+		}
+	}
+	// each Header Parameter name in ONE position, unless this is a duplicate-name case
+	m.Dup = m.Ser == "json" && r.Intn(5) == 0
+	pn := m.Prot[0].names(true, true)
+	un := map[string]bool{}
+	if m.Unprot[0] != nil {
+		if !m.Dup {
+			m.Unprot[0].strip(pn)
+		}
+		un = m.Unprot[0].names(true, false)
+	}
+	for _, rc := range m.Rcpt {
+		if rc != nil && !m.Dup {
+			rc.strip(c11Union(pn, un))
+		}
+	}
+	if m.Dup { // make sure some name really occurs twice
+		switch k := r.Intn(3); {
+		case k == 0 && m.Unprot[0] != nil:
+			m.Prot[0].Kid, m.Unprot[0].Kid = "kid-protected", "kid-unprotected"
+		case k == 1 && len(m.Rcpt) > 0 && m.Rcpt[len(m.Rcpt)-1] != nil:
+			m.Prot[0].Typ, m.Rcpt[len(m.Rcpt)-1].Typ = "typ-protected", "typ-recipient"
+		case k == 2 && m.Unprot[0] != nil && len(m.Rcpt) > 0 && m.Rcpt[0] != nil:
+			m.Unprot[0].Cty, m.Rcpt[0].Cty = "cty-unprotected", "cty-recipient"
 		}
 	}
 	return m
@@ -394,6 +431,9 @@ func (x *c11Run) execMsgJWS() {
 		x.fail("property", "c11-jws-reparse-fails", "goat refuses the message it serialised", goTag+" "+goCls, "ok")
 		return
 	}
+	if m.Dup {
+		x.c.Count("msg.jws.duplicate-names.accepted") // jws does not enforce RFC 7515 §7.2.1 disjointness
+	}
 	var seen []c11SigObs
 	var verr error
 	if panicked, what = vf.Recover(func() { seen, _, verr = c11VerifyCapture(msg2) }); panicked || verr != nil {
@@ -617,6 +657,35 @@ func (x *c11Run) execMsgJWE() {
 	if !ok || !x.sameOutcome("parse-"+m.Ser, goTag, goCls, pm) {
 		return
 	}
+	// RFC 7516 §7.2.1: the names in the three header positions MUST be disjoint — read independently
+	overlap := ""
+	if m.Ser != "compact" {
+		um, _ := uh.(map[string]any)
+		for k := range um {
+			if _, dup := ph[k]; dup {
+				overlap = "protected/unprotected:" + k
+			}
+		}
+		for _, rc := range rcpts {
+			rm, _ := rc.(map[string]any)
+			rh, _ := rm["header"].(map[string]any)
+			for k := range rh {
+				if _, dup := ph[k]; dup {
+					overlap = "protected/recipient:" + k
+				}
+				if _, dup := um[k]; dup {
+					overlap = "unprotected/recipient:" + k
+				}
+			}
+		}
+	}
+	if overlap != "" {
+		x.c.Count("msg.jwe.duplicate-names." + goTag)
+		if goTag == "ok" {
+			x.fail("property", "c11-jwe-duplicate-accepted", "a JWE whose header parameter names are not disjoint is accepted ("+overlap+")", string(data), "rejected")
+		}
+		return
+	}
 	if goTag != "ok" {
 		x.fail("property", "c11-jwe-reparse-fails", "goat refuses the message it serialised", goTag+" "+goCls, "ok")
 		return
@@ -697,7 +766,8 @@ func c11AllCritCases() []c11Case {
 			for _, ps := range [][2]string{{"protected", "compact"}, {"protected", "flattened"}, {"protected", "general"}, {"unprotected", "flattened"}, {"unprotected", "general"}} {
 				out = append(out, c11Case{Kind: "crit", Crit: &c11Crit{Pos: ps[0], Ser: ps[1], Crit: l, Present: present}})
 			}
-			for _, ps := range [][2]string{{"protected", "compact"}, {"protected", "json"}, {"unprotected", "json"}, {"recipient", "json"}} {
+			for _, ps := range [][2]string{{"protected", "compact"}, {"protected", "json"}, {"unprotected", "json"}, {"recipient", "json"},
+				{"protected", "flatjson"}, {"unprotected", "flatjson"}, {"recipient", "flatjson"}} {
 				out = append(out, c11Case{Kind: "crit", JWE: true, Crit: &c11Crit{Pos: ps[0], Ser: ps[1], Crit: l, Present: present}})
 			}
 		}
@@ -812,9 +882,14 @@ func (x *c11Run) execCrit() {
 			data = []byte(pt + ".." + c11b64.EncodeToString(iv) + "." + c11b64.EncodeToString(ct) + "." + c11b64.EncodeToString(tag))
 			parseOp, arg = "c11.jwe.parsecompact", c11Split(string(data), 5)
 		} else {
-			data = c11JSON(map[string]any{"protected": pt, "unprotected": unprot, "iv": c11b64.EncodeToString(iv),
-				"ciphertext": c11b64.EncodeToString(ct), "tag": c11b64.EncodeToString(tag),
-				"recipients": []any{map[string]any{"header": rcpt, "encrypted_key": ""}}})
+			top := map[string]any{"protected": pt, "unprotected": unprot, "iv": c11b64.EncodeToString(iv),
+				"ciphertext": c11b64.EncodeToString(ct), "tag": c11b64.EncodeToString(tag)}
+			if cc.Ser == "flatjson" { // RFC 7516 §7.2.2
+				top["header"] = rcpt
+			} else {
+				top["recipients"] = []any{map[string]any{"header": rcpt, "encrypted_key": ""}}
+			}
+			data = c11JSON(top)
 			parseOp, arg = "c11.jwe.parse", vf.Bytes(data)
 		}
 	}
